@@ -46,6 +46,10 @@ def run(ck: Checker, prog: Program, tier: str):
         for k in c02.LOOP_KERNELS:
             ck.guard(c02._kernel, ck, prog, k)
         ck.guard(c02._sg, ck, prog)
+    # ... and the PSD accumulator starts from zeros, not from whatever the allocator hands out (rules of C17)
+    from . import c17
+    with ck.borrow(c17, "C09.R3+"):
+        ck.guard(c17._r1, ck, prog)
     from .common import check_identity_comparisons as _cic
     ck.guard(_cic, ck, prog, "C09.R1", "C09")
 
